@@ -186,7 +186,7 @@ func cmdCheck(args []string) {
 	}
 	inBase := labelSet{inBaseExact, inBaseNorm}
 	// obligations of the discharged baseline that came back without an answer are retried with little
-	// parallelism and a doubled budget before they are reported: a loaded machine must not raise an alarm
+	// parallelism and three times the budget before they are reported: a loaded machine must not raise an alarm
 	var retry []*Obligation
 	for _, o := range obls {
 		if !o.MustFail && o.Res.Status != "unsat" && o.Res.Status != "sat" && inBase.has(o.Fn+"::"+o.Label) {
@@ -196,7 +196,7 @@ func cmdCheck(args []string) {
 	if len(retry) > 0 {
 		// the budget is wall-clock time: on a machine whose run queue is longer than its cores each solver gets a
 		// fraction of it, so the retry budget is scaled by the load (at most 6 times)
-		P.discharge(retry, 2*secs*loadFactor(), false, 3)
+		P.discharge(retry, 3*secs*loadFactor(), false, 3)
 	}
 	undecidedFns := map[string][]string{}
 	for _, fr := range frs {
